@@ -10,7 +10,8 @@
                      the value of every declared <data id>, the external queue, the INITIALIZED flag
      never written : the internal queue (sound: it is empty at every boundary, SerializeLemmas.v)
      lost          : delayed events      -- BasicDelayedEventQueue::serialize iterates the inherited, never used FIFO
-                                            `_queue` instead of the timer map `_callbackData`   [sz_delay_lost]
+                                            `_queue` instead of the timer map `_callbackData` (and InterpreterImpl does not
+                                            write _delayedEventTargets, without which a fired event is dropped) [sz_delay_lost]
                      the STABLE flag     -- deserialize sets only USCXML_CTX_INITIALIZED: the resumed interpreter
                                             announces the stable configuration once more            [sz_stable_lost]
                      TOP_LEVEL_FINAL and FINISHED -- a finished interpreter resumes as a running one [sz_final_lost]
